@@ -733,6 +733,7 @@ func gen(r *lib.RNG) (*caseT, map[string]bool) {
 
 // features recomputes the classification of a body from its text (so that replayed and corpus cases get it too)
 func features(ss []*Stmt, f map[string]bool, blockLbls map[int]bool, seenLoopLbl map[int]bool) {
+	inRepeat := blockLbls[-1] // pseudo entry: we are inside a REPEAT body, which ConvertStmt compiles twice
 	for _, s := range ss {
 		switch s.K {
 		case "block":
@@ -750,6 +751,21 @@ func features(ss []*Stmt, f map[string]bool, blockLbls map[int]bool, seenLoopLbl
 		case "while", "repeat", "loop":
 			if s.L != 0 && seenLoopLbl[s.L] {
 				f["reused-label"] = true
+			}
+			if s.L != 0 && s.K != "while" && inRepeat {
+				// the second compilation of the enclosing REPEAT body finds this label already registered
+				f["reused-label"] = true
+			}
+			if s.K == "repeat" && !inRepeat {
+				nb := map[int]bool{-1: true}
+				for k := range blockLbls {
+					nb[k] = true
+				}
+				features(s.Body, f, nb, seenLoopLbl)
+				if s.L != 0 {
+					seenLoopLbl[s.L] = true
+				}
+				continue
 			}
 			features(s.Body, f, blockLbls, seenLoopLbl)
 			if s.L != 0 && s.K != "while" {
